@@ -43,6 +43,11 @@ def run(ctx) -> None:
         ctx.guard("C15.shape", shape_rule, short)
     ctx.guard("C15.random", randomizer)
     ctx.guard("C15.instance-state", instance_state)
+    # the transforms are built on the well-array helpers: all 26 row letters, columns 1..C, index (r, c)
+    from . import c08
+
+    ctx.reuse("C15.helpers", c08.id_templates)
+    ctx.reuse("C15.helpers", c08.grid_construction)
 
 
 def _index_map(ctx, short: str):
